@@ -73,6 +73,63 @@ class Violation(Exception):
     pass
 
 
+class _Absent:
+    def __repr__(self):
+        return '<absent role>'
+
+
+class CondRole:
+    """One role name that is in the credentials iff its flag holds.
+
+    Yielded by iterating a RoleList: comparing it with a string decides the
+    flag only when the names match, so code that looks for one role does not
+    enumerate all subsets of the role universe."""
+    __slots__ = ('name', 'flag')
+
+    def __init__(self, name, flag):
+        self.name = name
+        self.flag = flag
+
+    def __eq__(self, other):
+        if isinstance(other, CondRole):
+            return (self.name == other.name) and (self.flag & other.flag)
+        if isinstance(other, str):
+            return self.flag if self.name == other else False
+        if isinstance(other, SymStr):
+            return (other == self.name) & self.flag
+        return NotImplemented
+
+    def __ne__(self, other):
+        r = self.__eq__(other)
+        if r is NotImplemented:
+            return r
+        return (not r) if isinstance(r, bool) else ~r
+
+    def __hash__(self):
+        return hash(self.name) if bool(self.flag) else hash(_Absent)
+
+    def __str__(self):
+        if bool(self.flag):
+            return self.name
+        raise Unmodelled('str() of a role that is absent on this path')
+
+    __repr__ = __str__
+
+    def __getattr__(self, attr):
+        if attr.startswith('__'):
+            raise AttributeError(attr)
+        meth = getattr(self.name, attr)
+
+        def call(*a, **k):
+            r = meth(*a, **k)
+            if isinstance(r, str):
+                return CondRole(r, self.flag)
+            if isinstance(r, bool):
+                return r
+            raise Unmodelled('CondRole.%s' % attr)
+        return call
+
+
 class RoleList(list):
     """``creds['roles']`` over a small universe; membership flags symbolic.
 
@@ -96,7 +153,8 @@ class RoleList(list):
         return self
 
     def __iter__(self):
-        return list.__iter__(self._mat())
+        for n, f in zip(self._names, self._flags):
+            yield CondRole(n, f)
 
     def __len__(self):
         return list.__len__(self._mat())
@@ -105,7 +163,7 @@ class RoleList(list):
         return list.__len__(self._mat()) > 0
 
     def __contains__(self, x):
-        return list.__contains__(self._mat(), x)
+        return any(bool(c == x) for c in self)
 
     def __getitem__(self, i):
         return list.__getitem__(self._mat(), i)
